@@ -1067,6 +1067,15 @@ pub fn c11(ctx: &mut Ctx) {
             }
         }
         let singles = cgr_record_sets().into_iter().find(|(t, _)| *t == "single-bases").unwrap().1;
+        // record counts at round decimal numbers
+        for &nrec in crate::enumr::DEC_COUNTS.iter() {
+            for (threads, mem) in [(1usize, 4usize << 30), (4, 4 << 30), (3, 2000)] {
+                if sh.mine() {
+                    c11_file(ctx, &singles[..nrec], 16, threads, mem, &format!("single-bases:{nrec}"));
+                    nf += 1;
+                }
+            }
+        }
         for nrec in crate::conc::boundary_counts(0, 6, singles.len() - 1) {
             for (threads, mem) in [(1usize, 4usize << 30), (4, 4 << 30)] {
                 if sh.mine() {
@@ -1457,6 +1466,14 @@ pub fn c12(ctx: &mut Ctx) {
             comp.set_norm(false);
             comp.verif_vectorise_one(&fixed[0]).unwrap().iter().map(|v| format!("({},{},{})", v.0 .0, v.0 .1, v.1)).collect::<Vec<_>>().join(" ").len() + 1
         };
+        for &nrec in crate::enumr::DEC_COUNTS.iter().filter(|&&n| n < fixed.len()) {
+            for (threads, mem, norm) in [(1usize, 4usize << 30, false), (4, 4 << 30, true), (3, 2000, false)] {
+                if sh.mine() {
+                    c12_file(ctx, &fixed[..nrec], 1, 16, norm, threads, mem, &format!("fixed-rows:{nrec}"));
+                    nf += 1;
+                }
+            }
+        }
         for nrec in crate::conc::boundary_counts(0, l0, fixed.len() - 1) {
             for threads in [1usize, 4] {
                 if sh.mine() {
